@@ -1,6 +1,7 @@
 (* C07 — datapath-to-CCP messages survive an encode/decode round trip.
    Statements only; proofs live in Portus.Wire.CodecRoundtrip. *)
-From Portus Require Import Codec CodecSpec CodecRoundtrip.
+From Portus Require Import Codec CodecSpec CodecRoundtrip WireTie.
+From PortusGen Require Import WireTables.
 
 (* in-range: u32 fields, name absent or 1-63 bytes of NUL-free valid UTF-8, 0-255 u64 values
    with a matching count (msg_in_range, CodecSpec.v) *)
@@ -27,3 +28,10 @@ Example C07_example_in_range :
   msg_in_range (MCr (mkCreate 7 10 1448 1 2 3 4 (Some [114; 101; 110; 111]))) = true /\
   msg_in_range (MMs (mkMeasure 1 2 3 [5; 18446744073709551615; 0])) = true.
 Proof. vm_compute. split; reflexivity. Qed.
+
+(* translator obligation: the type codes the encoders write are the source's *)
+Theorem C07_source_type_codes_are_the_models :
+  (impl_code_create, impl_code_measure, impl_code_install, impl_code_update, impl_code_changeprog, impl_code_ready) =
+  (T_CREATE, T_MEASURE, T_INSTALL, T_UPDATE, T_CHANGEPROG, T_READY).
+Proof. exact type_codes_tie. Qed.
+Print Assumptions C07_source_type_codes_are_the_models.
